@@ -1,0 +1,30 @@
+//go:build verif
+
+package eq
+
+// Contracts for eq.GoMap (C09), checked by /verif/govc: Eqv(a, b) holds exactly when the two maps have the same
+// number of entries, every key of a is a key of b, and the values under each key of a are equal
+// (onlyIfSameKeysEqualValues + ifSameKeysEqualValues).  With equal lengths "every key of a is a key of b" makes
+// the key sets equal (counting argument, not restated here).
+
+//@ import "github.com/csgura/fp/internal/veriflaws"
+//
+//@ func GoMap(eqV) result
+//@   loop 0 invariant len(a) == len(b) && verifspec.VisitedCount(a) <= len(a) && verifspec.Visited(a, k) && verifspec.Has(a, k) && Eq(av, a[k])
+//@   loop 0 invariant forall q K :: verifspec.Visited(a, q) && !Eq(q, k) ==> verifspec.Has(b, q) && eqV.Eqv(a[q], b[q])
+//@   loop 0 invariant forall q K :: verifspec.Visited(a, q) ==> verifspec.Has(a, q)
+//@   loop 0 decreases len(a) - verifspec.VisitedCount(a)
+//
+//@ lemma goMapEqOnlyIf[K comparable, V any](e fp.Eq[V], a, b map[K]V, k K)
+//@   prop C09
+//@   requires veriflaws.EqLaws(e)
+//@   ensures GoMap[K](e).Eqv(a, b) ==> len(a) == len(b) && (verifspec.Has(a, k) ==> verifspec.Has(b, k) && e.Eqv(a[k], b[k]))
+//@   tag onlyIfSameKeysEqualValues
+//@   ensures GoMap[K](e).Eqv(a, a)
+//@   tag refl
+//
+//@ lemma goMapEqIf[K comparable, V any](e fp.Eq[V], a, b map[K]V)
+//@   prop C09
+//@   requires len(a) == len(b) && (forall q K :: verifspec.Has(a, q) ==> verifspec.Has(b, q) && e.Eqv(a[q], b[q]))
+//@   ensures GoMap[K](e).Eqv(a, b)
+//@   tag ifSameKeysEqualValues
